@@ -423,6 +423,12 @@ func ruleIsOne(c *Ctx) {
 					okCmp = true
 				}
 			}
+			// the exponent guards in front must let every encoding of one through: 10^k is a coefficient for
+			// k = 0..34 (10^34 < 5·2^111), so the index reaching the table must be able to be 34. The interval
+			// analysis over-approximates the reachable indices: an upper bound below 34 proves an encoding is shut out.
+			iv := p.intervalAt(fd, ix.Index, append(stackOf(fd, r), r))
+			c.check(iv.hi == nil || iv.hi.Cmp(big.NewInt(34)) >= 0, "isone.range", r, "every encoding of one (10^0 .. 10^34 with the matching exponent) reaches the table comparison",
+				fmt.Sprintf("isOne: the exponent guards let only indices up to %v reach the comparison with the power-of-ten table, but 10^k with exponent -k encodes one for every k up to %d", iv.hi, 34), "C18", "C15", "C04")
 		}
 		return true
 	})
@@ -2627,6 +2633,14 @@ func ruleKernelExpFloor(c *Ctx) {
 			if len(ret.Results) != 2 {
 				k++
 				c.undecided(fmt.Sprintf("expfloor.ret:%s#%d", name, k), ret, name+": a return of the rounding kernel that is neither a pair nor a call of the kernel")
+				return
+			}
+			if name != "RoundingMode.round" {
+				// reduceN hands every result to round: the directed modes and the tie rules decide even when all
+				// digits have been shifted out (a tiny non-zero value rounds away from zero to the smallest subnormal)
+				k++
+				n++
+				c.bad(fmt.Sprintf("kernelret:%s#%d", name, k), ret, name+": this return leaves the reduction without going through round(); the rounding decision (directed modes, ties, sticky flag) is skipped for the inputs that reach it", append([]string{"C12"}, allArithProps...)...)
 				return
 			}
 			k++
